@@ -395,8 +395,14 @@ var loopCounter2 = [190]int8{
 	1, 0, 0, 0, 1, 0, -1, 0, -1, 0, 0, 0, 0, 0, 1, 0, 0, 1,
 }
 
-// thirdRootOne² + thirdRootOne + 1 = 0 in BW6761Fp
-var thirdRootOne = emulated.ValueOf[BaseField]("1968985824090209297278610739700577151397666382303825728450741611566800370218827257750865013421937292370006175842381275743914023380727582819905021229583192207421122272650305267822868639090213645505120388400344940985710520836292650")
+// thirdRootOne returns a fresh element ω with ω² + ω + 1 = 0 in BW6761Fp. It
+// must not be a package-level Element: the field caches per-circuit data (the
+// evaluation at the challenge of the deferred multiplication checks) inside
+// the elements it is given, which concurrent compilations would share.
+func (pr Pairing) thirdRootOne() *baseEl {
+	e := emulated.ValueOf[BaseField]("1968985824090209297278610739700577151397666382303825728450741611566800370218827257750865013421937292370006175842381275743914023380727582819905021229583192207421122272650305267822868639090213645505120388400344940985710520836292650")
+	return &e
+}
 
 // MillerLoop computes the optimal Tate multi-Miller loop
 // (or twisted ate or Eta revisited)
